@@ -20,4 +20,5 @@ for d in seeded/*/; do
   und=$(grep -c "^UNDECIDED" /tmp/sweep_$n.log)
   echo "| $n | $p | $rc | $v violation line(s), $und undecided line(s); first: $first |" >> $OUT
 done
+./tools/refresh_evidence.sh > /dev/null 2>&1   # committed evidence must describe the unchanged tree
 cat $OUT
